@@ -1,4 +1,258 @@
-#include "run.h"
+// Engine sched (C20): N cooperative tasks (ucontext fibers on one OS thread), every switch decided by the
+// plan's choice list. Each switch between tasks is announced to ThreadSanitizer WITHOUT synchronisation,
+// so the detector treats the tasks as truly concurrent and reports any two conflicting accesses.
+#include <sys/mman.h>
+#include <ucontext.h>
+#include <cstring>
 #include "gen.h"
-RunResult run_sched(const Plan &, EventLog &, RunStats &, Progress *) { return RunResult(); }
-Plan gen_sched_plan(const std::string &p, uint64_t s, int64_t r) { return gen_plan(p, s, r); }
+#include "guard.h"
+#include "model.h"
+#include "run.h"
+
+extern "C" {
+void *__tsan_get_current_fiber(void) __attribute__((weak));
+void *__tsan_create_fiber(unsigned flags) __attribute__((weak));
+void __tsan_destroy_fiber(void *fiber) __attribute__((weak));
+void __tsan_switch_to_fiber(void *fiber, unsigned flags) __attribute__((weak));
+}
+static const unsigned NO_SYNC = 1;  // __tsan_switch_to_fiber_no_sync
+
+static int64_t R(Rng &r) { return (int64_t)(r.next() >> 2); }
+Plan gen_plan(const std::string &property, uint64_t seed, int64_t run);
+
+// ------------------------------------------------------------------ plan generation
+struct W2 { const char *op; int w; };
+Plan gen_sched_plan(const std::string &prop, uint64_t seed, int64_t run) {
+    Plan p;
+    p.engine = "sched"; p.property = prop; p.seed = seed; p.run = run;
+    Rng r(mix64(mix64(seed, hash_str(prop)), (uint64_t)run));
+    int ntasks = (int)r.range(2, 4);
+    p.knobs["ntasks"] = ntasks;
+    p.knobs["hooks"] = r.chance(2, 3) ? 1 : 0;
+    p.knobs["fill"] = (int64_t)r.range(1, 255);
+    p.knobs["realloc"] = (int64_t)r.below(2);
+    p.knobs["profile"] = r.chance(1, 2) ? 3 : 0;
+    // per-task op sequences come from the hist generators of several properties (their mixes cover parse, print,
+    // edit, compare, duplicate, minify, patch, merge, sort, delete); ops that reconfigure hooks are dropped
+    static const char *donors[] = {"C07", "C16", "C17", "C18", "C19", "C06", "C14"};
+    for (int t = 0; t < ntasks; t++) {
+        Plan d = gen_plan(donors[r.below(7)], mix64(seed, 0x5C4ED + (uint64_t)t), run * 8 + t);
+        size_t maxsteps = (size_t)r.range(6, 28), n = 0;
+        Step pre; pre.op = "parse"; pre.task = t; pre.a = {R(r), R(r), R(r), R(r)};
+        p.steps.push_back(pre);
+        for (auto &s : d.steps) {
+            if (s.op == "hooks" || s.op == "roundtrip" || s.op == "strictprint" || s.op == "capscan" || s.op == "refuse" || s.op == "dupcheck" || s.op == "build_deep" || s.op == "dup_deep" || s.op == "dup_cyclic") continue;
+            if (n++ >= maxsteps) break;
+            Step c = s; c.task = t;
+            p.steps.push_back(c);
+            if (r.chance(1, 6)) { Step x; x.task = t; static const char *extra[] = {"compare", "minify", "print", "ptr_find", "dup", "sort", "print"}; x.op = extra[r.below(7)]; x.a = {R(r), R(r), R(r), R(r), R(r)}; p.steps.push_back(x); }
+        }
+    }
+    // schedule: at each yield one entry is consumed: -1 keep running, k >= 0 switch to runnable[k mod #runnable]
+    size_t len = (size_t)r.range(200, 6000);
+    bool pct = r.chance(1, 3);
+    unsigned swp = (unsigned)r.range(1, 20);  // switch probability swp/20
+    size_t changes = (size_t)r.range(1, 12);
+    for (size_t i = 0; i < len; i++) {
+        bool sw = pct ? (r.below(len) < changes) : r.chance(swp, 20);
+        p.sched.push_back(sw ? (int)r.below(16) : -1);
+    }
+    return p;
+}
+
+// ------------------------------------------------------------------ fibers and scheduler
+namespace {
+enum TState { T_READY, T_DONE, T_JOINED };
+struct Task {
+    int id = 0;
+    ucontext_t ctx;
+    void *stack = nullptr;
+    size_t stack_size = 0;
+    void *tsan = nullptr;
+    TState state = T_READY;
+    std::vector<const Step *> steps;
+    EventLog log;
+    RunStats stats;   // per task: the harness' own bookkeeping must not be shared between fibers (libc interceptors see it)
+    Outcome outcome;
+    World *world = nullptr;
+};
+struct Sched {
+    std::vector<Task *> tasks;
+    ucontext_t main_ctx;
+    void *main_tsan = nullptr;
+    int current = -1;  // index of the running task, -1: main
+    const std::vector<int> *choices = nullptr;
+    size_t pos = 0;
+    uint64_t yields = 0, switches = 0;
+    uint64_t trace_hash = 0x51ED;
+    const Plan *plan = nullptr;
+    RunStats *stats = nullptr;
+    Progress *prog = nullptr;
+    WorldCfg cfg;
+    int profile = 0;
+};
+Sched *g_s = nullptr;
+
+void switch_to(int target, unsigned flags) {
+    Sched &s = *g_s;
+    int from = s.current;
+    ucontext_t *fc = from < 0 ? &s.main_ctx : &s.tasks[(size_t)from]->ctx;
+    ucontext_t *tc = target < 0 ? &s.main_ctx : &s.tasks[(size_t)target]->ctx;
+    void *tf = target < 0 ? s.main_tsan : s.tasks[(size_t)target]->tsan;
+    s.current = target;
+    guard_set_task(target < 0 ? 0 : target);
+    if (__tsan_switch_to_fiber && tf) __tsan_switch_to_fiber(tf, flags);
+    swapcontext(fc, tc);
+}
+void on_yield(int site) {
+    Sched &s = *g_s;
+    if (s.current < 0) return;  // main (stage outside the tasks)
+    s.yields++;
+    int choice = -1;
+    if (s.pos < s.choices->size()) choice = (*s.choices)[s.pos++];
+    if (choice < 0) return;
+    std::vector<int> runnable;
+    for (auto t : s.tasks) if (t->state == T_READY) runnable.push_back(t->id);
+    if (runnable.size() < 2) return;
+    int target = runnable[(size_t)choice % runnable.size()];
+    if (target == s.current) return;
+    s.switches++;
+    s.trace_hash = mix64(s.trace_hash, (uint64_t)s.current * 1000003u + (uint64_t)site * 31u + (uint64_t)target);
+    switch_to(target, NO_SYNC);
+}
+void task_main(int id) {
+    Sched &s = *g_s;
+    Task &t = *s.tasks[(size_t)id];
+    {
+        WorldCfg cfg = s.cfg;
+        cfg.task = id;
+        World w(cfg, t.log, t.stats);
+        w.profile = s.profile;
+        t.world = &w;
+        try {
+            for (size_t i = 0; i < t.steps.size(); i++) w.exec(*t.steps[i], (int)i);
+            w.finish();
+        } catch (Stop &st) {
+            t.outcome = st.o;
+            t.log.add("STOP " + st.o.oracle);
+            w.abandon();
+        }
+        t.world = nullptr;
+    }
+    t.state = T_DONE;
+    // hand the processor to another runnable task without synchronising; the join with main happens at the very end
+    for (auto o : s.tasks) if (o->state == T_READY) { switch_to(o->id, NO_SYNC); break; }
+    if (t.state == T_DONE) {
+        bool any = false;
+        for (auto o : s.tasks) if (o->state == T_READY) any = true;
+        if (!any) switch_to(-1, 0);
+    }
+    // resumed once more by main for the final join: a synchronising switch back
+    t.state = T_JOINED;
+    switch_to(-1, 0);
+    abort();  // never resumed again
+}
+void trampoline(int id) { task_main(id); }
+
+// runs all tasks of the plan under the scheduler (concurrent) or one after the other without any switch (solo)
+void run_tasks(Sched &s, bool concurrent) {
+    g_s = &s;
+    if (__tsan_get_current_fiber) s.main_tsan = __tsan_get_current_fiber();
+    for (auto t : s.tasks) {
+        t->stack_size = (size_t)1 << 20;
+        t->stack = mmap(nullptr, t->stack_size, PROT_READ | PROT_WRITE, MAP_PRIVATE | MAP_ANONYMOUS | MAP_STACK, -1, 0);
+        getcontext(&t->ctx);
+        t->ctx.uc_stack.ss_sp = t->stack;
+        t->ctx.uc_stack.ss_size = t->stack_size;
+        t->ctx.uc_link = nullptr;
+        makecontext(&t->ctx, (void (*)())trampoline, 1, t->id);
+        if (__tsan_create_fiber) t->tsan = __tsan_create_fiber(0);
+        t->state = T_READY;
+    }
+    std::vector<int> none;
+    const std::vector<int> *saved = s.choices;
+    if (!concurrent) s.choices = &none;  // no entry is ever consumed: a task runs to completion, then the next one starts
+    asim::set_yield(on_yield);
+    s.current = -1;
+    switch_to(s.tasks[0]->id, 0);
+    // back in main: every task is done; join them one by one (synchronising), so that the next run starts after all of them
+    for (auto t : s.tasks) {
+        if (t->state == T_DONE) switch_to(t->id, 0);
+    }
+    asim::set_yield(nullptr);
+    s.choices = saved;
+    for (auto t : s.tasks) {
+        if (__tsan_destroy_fiber && t->tsan) __tsan_destroy_fiber(t->tsan);
+        t->tsan = nullptr;
+        munmap(t->stack, t->stack_size);
+        t->stack = nullptr;
+    }
+    guard_set_task(0);
+    g_s = nullptr;
+}
+}  // namespace
+
+RunResult run_sched(const Plan &p, EventLog &log, RunStats &stats, Progress *prog) {
+    RunResult rr;
+    int ntasks = (int)p.knob("ntasks", 2);
+    if (ntasks < 1) ntasks = 1;
+    if (ntasks > 6) ntasks = 6;
+    WorldCfg cfg = cfg_for(p.property);
+    pool();  // caller-owned constant strings exist before the tasks start
+    cfg.shared_world = true;
+    cfg.hookcfg = p.knob("hooks", 0) ? HK_BOTH : HK_DEFAULT;
+    std::vector<uint64_t> solo_hash;
+    std::vector<std::vector<std::string>> solo_lines;
+    uint64_t switches = 0, yields = 0, trace = 0;
+    for (int phase = 0; phase < 2; phase++) {
+        bool concurrent = phase == 1;
+        asim::reset_run((unsigned char)p.knob("fill", 0xA5), p.knob("realloc", 0) ? asim::RA_INPLACE : asim::RA_MOVE);
+        // hooks are installed before the tasks start (the documented condition)
+        cJSON_Hooks h;
+        if (cfg.hookcfg == HK_BOTH) { h.malloc_fn = asim::cust_malloc; h.free_fn = asim::cust_free; cJSON_InitHooks(&h); asim::set_epoch(asim::EP_BOTH); }
+        else { cJSON_InitHooks(nullptr); asim::set_epoch(asim::EP_DEFAULT); }
+        Sched s;
+        s.plan = &p; s.stats = &stats; s.prog = prog; s.cfg = cfg; s.profile = (int)p.knob("profile", 0);
+        s.choices = &p.sched;
+        std::vector<Task> tasks((size_t)ntasks);
+        for (int t = 0; t < ntasks; t++) { tasks[(size_t)t].id = t; tasks[(size_t)t].log.keep_text = true; s.tasks.push_back(&tasks[(size_t)t]); }
+        for (auto &st : p.steps) if (st.task >= 0 && st.task < ntasks) tasks[(size_t)st.task].steps.push_back(&st);
+        if (prog) { prog->step = phase; prog->judged = 1; }
+        if (!concurrent) {
+            // solo: each task alone, one after the other, same allocator configuration
+            run_tasks(s, false);
+            for (auto &t : tasks) { solo_hash.push_back(t.log.hash); solo_lines.push_back(t.log.lines); }
+        } else {
+            run_tasks(s, true);
+            switches = s.switches; yields = s.yields; trace = s.trace_hash;
+            for (int t = 0; t < ntasks; t++) {
+                Task &tk = tasks[(size_t)t];
+                log.add("task " + std::to_string(t) + " trace " + std::to_string(tk.log.hash) + " events " + std::to_string(tk.log.count));
+                if (tk.log.hash != solo_hash[(size_t)t] && rr.outcome.kind == Outcome::OK) {
+                    size_t k = 0;
+                    const auto &a = solo_lines[(size_t)t], &b = tk.log.lines;
+                    while (k < a.size() && k < b.size() && a[k] == b[k]) k++;
+                    rr.outcome.kind = Outcome::VIOLATION;
+                    rr.outcome.oracle = p.property + "/solo-equivalence";
+                    rr.outcome.step = (int)k;
+                    rr.outcome.msg = "task " + std::to_string(t) + " observes different results than when it runs alone; first difference at event " + std::to_string(k) + ": alone '" + (k < a.size() ? a[k] : std::string("<end>")) + "' vs concurrent '" + (k < b.size() ? b[k] : std::string("<end>")) + "'";
+                }
+            }
+        }
+        for (auto &t : tasks) {
+            stats.steps += t.stats.steps; stats.noops += t.stats.noops; stats.judged_steps += t.stats.judged_steps;
+            for (auto &kv : t.stats.op_counts) stats.op_counts[kv.first] += kv.second;
+            for (auto &kv : t.stats.probes) stats.probes[kv.first] += kv.second;
+            for (auto &kv : t.stats.fault_counts) stats.fault_counts[kv.first] += kv.second;
+        }
+        cJSON_InitHooks(nullptr);
+        asim::set_epoch(asim::EP_DEFAULT);
+    }
+    stats.fault_counts["sched_switch"] += switches;
+    stats.fault_counts["yield_points_reached"] += yields;
+    stats.fault_counts[cfg.hookcfg == HK_BOTH ? "cfg_custom_hooks" : "cfg_default_allocator"]++;
+    if (switches >= 2) { stats.nontrivial++; stats.state_hashes.push_back(trace); }
+    log.add("sched switches " + std::to_string(switches) + " yields " + std::to_string(yields));
+    rr.evaluations = 1;
+    return rr;
+}
